@@ -24,7 +24,7 @@ WITNESSES = [
 	(D35, {'k': 'stream', 'kind': 'client', 's': b'HTTP/1.1 200 OK\r\nContent-Length: =?utf-8?q?3?=\r\n\r\nabc'.hex(), 'cuts': [[]]}),
 ]
 
-CL_FORMS = [None, 'right', 'small', 'large', 'repeat-same', 'repeat-diff', '+', '0pad', 'junk', 'neg', 'ws']
+CL_FORMS = [None, 'right', 'small', 'large', 'repeat-same', 'repeat-diff', '+', '0pad', 'junk', 'neg', 'ws', 'param', 'param-empty', 'param-first', 'quoted', 'list-same', 'hex', 'float', 'exp']
 TE_FORMS = [None, 'chunked', 'Chunked', 'CHUNKED', 'gzip', 'gzip, chunked', 'chunked, gzip', 'identity']
 TRAILERS = [
 	(None, []), ('X-T', [('X-T', 'v')]), ('X-T', [('x-t', 'v')]), ('x-t, Y', [('X-T', '1'), ('Y', '2')]), ('X-T', []), (None, [('X-T', 'v')]),
@@ -64,6 +64,22 @@ def build(c):
 		fields.append(b'Content-Length: -%d' % n)
 	elif cl == 'ws':
 		fields.append(b'Content-Length: \x1f%d\xa0' % n)
+	elif cl == 'param':      # element syntax in a field that is a bare number: nothing after the digits may be ignored
+		fields.append(b'Content-Length: %d;q=1' % n)
+	elif cl == 'param-empty':
+		fields.append(b'Content-Length: %d;' % n)
+	elif cl == 'param-first':
+		fields.append(b'Content-Length: ;%d' % n)
+	elif cl == 'quoted':
+		fields.append(b'Content-Length: "%d"' % n)
+	elif cl == 'list-same':
+		fields.append(b'Content-Length: %d, %d' % (n, n))
+	elif cl == 'hex':
+		fields.append(b'Content-Length: 0x%x' % n)
+	elif cl == 'float':
+		fields.append(b'Content-Length: %d.0' % n)
+	elif cl == 'exp':
+		fields.append(b'Content-Length: %de0' % n)
 	if c['te'] is not None:
 		fields.append(b'Transfer-Encoding: ' + c['te'].encode())
 	if c['tr_announce'] is not None:
